@@ -37,6 +37,14 @@ CHECKS = {
             'whole stream; all 2^(W-1) chunk compositions for W<=5 (quick) / 6 (thorough) windows are enumerated for six configurations.',
             'chunks are whole multiples of num_taps*num_branches; windows of fewer than 4 coefficients (NaN from scipy for hann/blackman) excluded; 1e-10 relative tolerance',
             'DESIGN.md 3/C08'),
+    'C17': ('exploration',
+            'Hypothesis generated frames and derived operations vs pixel-by-pixel re-derivation from the parent; metamorphic tone-straightening relation',
+            'Slices (all bounds), de-drifts (either sign, below/near/beyond the limit, rate by argument or metadata) and '
+            'integrations (axis x mode x normalise x output form) of generated frames with identifiable content are recomputed '
+            'from the parent pixel by pixel; axes, orientation, resolutions, start time, source name and copy-not-view are compared; '
+            'an injected constant-drift tone must de-drift onto one column labelled with its start frequency.',
+            'between shift(tchans-1)>=fchans and the implemented limit either outcome is accepted; rounding ties excluded and counted',
+            'DESIGN.md 3/C17'),
 }
 
 ALL = [f'C{i:02d}' for i in range(1, 21)]
